@@ -35,7 +35,7 @@ from .c10 import syms, text, tokenise, user_agent
 
 HOST = "h"
 REAL_BS = 16384
-METHODS = ["GET", "POST", "DELETE", "PUT", "PATCH", "HEAD", "OPTIONS", "post"]     # = MethodTable of MC_BodyFraming
+METHODS = ["GET", "POST", "DELETE", "PUT", "PATCH", "HEAD", "OPTIONS", "get"]     # = MethodTable of MC_BodyFraming
 ACTIONS = ["ActRecordPosition", "ActTellFails", "ActMarkUnreplayable", "ActNoPosition", "ActRewind", "ActRewindSeekFails",
            "ActRewindRefused", "ActRewindNoSeek", "ActSend", "ActSendBreaks", "ActReturn", "ActRetry", "ActPoolRedirect", "ActManagerRedirect",
            "ActSeeOther"]
@@ -76,6 +76,11 @@ CONSTANTS
   UAValue <- DocUA
 CHECK_DEADLOCK FALSE
 """
+
+
+def jobs() -> int:
+    """size of every process pool (VERIF_JOBS caps it; default: all cores)"""
+    return max(1, int(os.environ.get("VERIF_JOBS") or 0) or os.cpu_count() or 4)
 
 
 def env_doc():
@@ -315,9 +320,11 @@ def execute(sc, mode="sym", variant=None, total=0) -> dict:
                 left = bytes(n.peers[cid].inbuf)
                 if left:
                     atts.append(_attempt(left, None, n.peers[cid], mode, table, textual))
-        got = sum(len(n.peers[c].received) for c in n.peers)
-        if got != sum(n.sent_bytes.values()):
-            raise tlc.MachineryError(f"peer saw {got} bytes but the client sockets sent {sum(n.sent_bytes.values())}")
+        got, sent = sum(len(n.peers[c].received) for c in n.peers), sum(n.sent_bytes.values())
+        if got > sent:
+            raise tlc.MachineryError(f"peer saw {got} bytes but the client sockets sent only {sent}")
+        if got < sent:      # the peer had answered (and closed) while the client was still writing: bytes outside every message
+            atts.append(_attempt(b"", None, None, mode, table, textual, unread=sent - got))
     finally:
         try:
             if hasattr(body, "close"):
@@ -331,7 +338,12 @@ def execute(sc, mode="sym", variant=None, total=0) -> dict:
     return {"sc": sc, "mode": mode, "variant": variant, "total": total, "atts": atts, "outcome": outcome}
 
 
-def _attempt(raw, rq, peer, mode, table, textual, complete=True):
+def _attempt(raw, rq, peer, mode, table, textual, complete=True, unread=0):
+    if unread:              # bytes the client wrote after the peer had stopped reading: no message accounts for them
+        if mode == "sym":
+            return {"complete": True, "raw": ["?unread", str(unread)]}
+        return {"complete": True, "ok": False, "why": "UnreadBytes", "method": [], "nfr": 0, "mode": "none", "declared": 0,
+                "payload": ["?unread", str(unread)], "clean": False}
     if mode == "sym":
         return {"complete": complete, "raw": tokenise(raw)}
     if rq is None:          # leftover bytes in dig mode: a message the peer's parser could not finish
@@ -472,8 +484,8 @@ def _model_run(args):
         out[sc_key(d["sc"])] = (d["sc"], {"outcome": d["outcome"], "atts": d["atts"]}, d["verdict"]["clause"])
         return True
 
-    r = tlc.run("MC_BodyFraming", cfg, workers=8, on_line=on_line, files={"bf_env.json": json.dumps(envdoc)},
-                env={"BF_ENV": "bf_env.json"}, timeout=7200, heap="4g", coverage=not expect_fail, expect_fail=expect_fail)
+    r = tlc.run("MC_BodyFraming", cfg, workers=max(1, min(8, jobs() // 2)), on_line=on_line, files={"bf_env.json": json.dumps(envdoc)},
+                env={"BF_ENV": "bf_env.json"}, timeout=7200, heap="3g", coverage=not expect_fail, expect_fail=expect_fail)
     m = re.search(r"Finished computing initial states: (\d+) distinct state", r.out)
     return ({"name": name, "violated": r.violated, "distinct": r.distinct, "generated": r.generated, "depth": r.depth, "wall": r.wall,
              "coverage": {k: v[1] for k, v in r.coverage.items()}, "initial": int(m.group(1)) if m else -1, "tail": r.out[-1500:]}, out)
@@ -519,27 +531,25 @@ def run(rep):
     quick = rep.tier == "quick"
     p = _params(quick)
     envdoc = env_doc()
-    files = {"bf_env.json": json.dumps(envdoc)}
-    env = {"BF_ENV": "bf_env.json"}
     rng = random.Random(rep.seed)
     rep.rule = ("every terminal state of the re-send model (body kind x size x start offset x method x chunked flag x caller framing header x "
-                "bare pool / PoolManager x attempt history over {ok, error, 503, 307, 308, 303}) is replayed into the real urlopen with several "
+                "bare pool / PoolManager x attempt history over {ok, connection error after / in the middle of the request, 503, 307, 308, 303}) is replayed into the real urlopen with several "
                 "concrete body objects per kind, once with a small blocksize (raw bytes judged by the spec's parser) and with bodies around the "
                 "real blocksize 16384 (peer's framing parser); a case is non-trivial when the request is sent more than once, chunking is "
                 "requested, the caller supplies a framing header or a file body starts at a non-zero offset")
-    rep.assumptions = ["the scripted peer answers each attempt along the history; connection errors happen after the request was sent",
+    rep.assumptions = ["the scripted peer answers each attempt along the history; a connection error strikes after the whole request or at its first body write",
                        "body objects are well-behaved (read/tell/seek do what io objects do, except the two scripted failures)",
                        "TLC 1.8, CPython http.client and vh/net.py are trusted; C10 covers header/target injection"]
-    K = 16
+    K = jobs()
     inv = lambda names: "\n".join("INVARIANT " + i for i in names)
     tiny = dict(kinds=["file", "gen"], sizes=[1], hsizes=[1], methods=[2], maxre=1, bs=3)
-    jobs = [("design", _cfg(p, [], inv(INV_DESIGN + ["EmitInv"]) + "\nPROPERTY Terminates", emit=True), envdoc, False),
+    mruns = [("design", _cfg(p, [], inv(INV_DESIGN + ["EmitInv"]) + "\nPROPERTY Terminates", emit=True), envdoc, False),
             ("code", _cfg(p, ["D3", "D4"], inv(INV_CODE + ["EmitInv"]) + "\nPROPERTY Terminates", emit=True), envdoc, False),
             ("exhibit-D3", _cfg(tiny, ["D3"], "INVARIANT RulesHold"), envdoc, True),
             ("exhibit-D4", _cfg(tiny, ["D4"], "INVARIANT RulesHold"), envdoc, True)]
     with mp.Pool(K) as pool:
         # ---- stage 1 + 2: the four model-checking runs side by side; the two full runs also emit their terminal states
-        (r_design, design), (r_code, code), (x3, _), (x4, _) = pool.map(_model_run, jobs, chunksize=1)
+        (r_design, design), (r_code, code), (x3, _), (x4, _) = pool.map(_model_run, mruns, chunksize=1)
         for r, label in ((r_design, f"MC_BodyFraming design D={{}} {p} invariants={INV_DESIGN}+Terminates"),
                          (r_code, f"MC_BodyFraming code-as-recorded D={{D3,D4}} invariants={INV_CODE}+Terminates")):
             rep.states += r["distinct"]
@@ -605,7 +615,7 @@ def run(rep):
             "first:none/plain/body", "first:none/chunked/body", "first:cl/plain/body", "first:te/plain/body"]
     need += [f"hist:{o}>ok" for o in RESEND] + ["hist:ok", "incomplete-attempt"]
     for nd in need:
-        if not tally.get(nd):
+        if not tally.get(nd) and not rep.violations:      # a violation is reported first; vacuity only matters for a green run
             raise tlc.MachineryError(f"vacuous coverage: no execution with {nd} (tally {tally})")
     rep.exhaustive = True
 
